@@ -658,6 +658,8 @@ class EEA:
             # property setter?
             bt = self.prog.type_of(fr.module, t.value)
             c = self._repo_class_of_type(bt)
+            if c is None and isinstance(t.value, ast.Name) and fr.func.cls is not None and fr.func.positional_params[:1] == [t.value.id] and not fr.func.is_staticmethod():
+                c = fr.callee.cls or fr.func.cls  # `self` typed as Self (a type variable) in methods returning Self
             if c is not None:
                 for cand in c.repo_mro():
                     for f in cand.methods.get(t.attr, []):
@@ -1364,9 +1366,10 @@ class EEA:
             for v in e.values:
                 if isinstance(v, ast.FormattedValue):
                     out = self.merge(out, self.expr(v.value, st))
+                    out = self.merge(out, self._format_spec_raises(v, st))
             return out
         if isinstance(e, ast.FormattedValue):
-            return self.expr(e.value, st)
+            return self.merge(self.expr(e.value, st), self._format_spec_raises(e, st))
         if isinstance(e, (ast.ListComp, ast.SetComp, ast.GeneratorExp, ast.DictComp)):
             out = {}
             cur = st
@@ -1408,6 +1411,62 @@ class EEA:
         if isinstance(e, ast.NamedExpr):
             return self.expr(e.value, st)
         raise AnalysisError(f"expression kind {type(e).__name__} not modelled at {fr.module.relpath}:{e.lineno}")
+
+    FORMATTABLE = ("builtins.str", "builtins.int", "builtins.float", "builtins.bool", "builtins.complex", "decimal.Decimal", "fractions.Fraction", "datetime.date", "datetime.datetime", "datetime.time", "str", "int", "float", "bool")
+
+    def _format_spec_raises(self, v: ast.FormattedValue, st: St) -> dict:
+        """f"{x:<spec>}" with a non-empty spec and no !r/!s/!a conversion calls type(x).__format__(spec);
+        object.__format__ (every class that does not define its own) raises TypeError for a non-empty spec."""
+        if v.format_spec is None or v.conversion != -1:
+            return {}
+        spec = v.format_spec
+        if isinstance(spec, ast.JoinedStr) and not spec.values:
+            return {}
+        fr = st.fr
+        t = self.prog.type_of(fr.module, v.value) or ""
+        if (not t or t == "Any") and isinstance(v.value, ast.Name) and v.value.id in fr.func.params:
+            # positions inside f-strings differ between mypy and ast: fall back to the parameter's annotation
+            ann = fr.func.param_annotation(v.value.id)
+            parts = []
+            for piece in (norm(ann).strip("'\"").split("|") if ann is not None else []):
+                piece = piece.strip()
+                try:
+                    d = self.prog.resolve_expr(fr.module, ast.parse(piece, mode="eval").body)
+                except SyntaxError:
+                    d = None
+                if d is not None and d.kind == "class":
+                    parts.append(d.obj.fq)
+                elif d is not None and d.kind == "external":
+                    parts.append(str(d.obj))
+                elif piece in ("str", "int", "float", "bool", "None"):
+                    parts.append(piece)
+                else:
+                    parts = []
+                    break
+            t = " | ".join(parts)
+        if not t or t == "Any":
+            return {}
+        out: dict = {}
+        for comp in [c.strip() for c in t.split(" | ")]:
+            base = comp.split("[")[0]
+            if base in self.FORMATTABLE or base in ("None", "Any", ""):
+                if base == "None":
+                    pass
+                else:
+                    continue
+            ok = False
+            if base.startswith(PKG + "."):
+                d = self.prog.lookup_fullname(base)
+                if d is not None and d.kind == "class":
+                    if d.obj.find_method("__format__") is not None or any(isinstance(b, str) and b.split(".")[-1] in ("IntEnum", "IntFlag", "str", "int", "float", "StrEnum") for b in d.obj.mro()):
+                        ok = True
+            elif base != "None":
+                mro = self.prog.mro_of(base) or []
+                ok = any(b in self.FORMATTABLE for b in mro) or base.startswith(("enum.",))
+            if not ok:
+                self.obligations += 1
+                out = self.merge(out, self._one(S.TE, self.site(fr, v, "format-spec", f"format spec on a value of type {comp.rsplit('.', 1)[-1]} (object.__format__ refuses a non-empty spec)"), fr))
+        return out
 
     # ---- implicit operations
 
